@@ -538,7 +538,9 @@ def seeded_names(tree: Tree, tier: str) -> list[str]:
             "b/~/x", "~root/x", "~root", "~root/", "~nosuchuser13/x", "~/x/", "~/x.liquid", "~x", "~~/x", "~/~/x",
             "~/../home/x", "~/..", "a/~", "a/~root/x",
             # environment-variable look-alikes: ordinary names too
-            "$HOME/x", "${HOME}/secret.txt", "$HOME", "a/$HOME/x", "%HOME%/x"]
+            "$HOME/x", "${HOME}/secret.txt", "$HOME", "a/$HOME/x", "%HOME%/x",
+            # files of the package directory itself: inside the search path only when that is cwd
+            "__init__.py", "./__init__.py", "__init__", "secret", "ab", "c/a", "a/../__init__.py"]
     try:
         import pwd
         hd = pwd.getpwnam("root").pw_dir
